@@ -239,10 +239,12 @@ fn clone_machine(log: &mut Log, rng: &mut Rng, steps: u64) {
                 "clone"
             }
             4 | 5 | 6 => {
-                let s = regs[src].clone();
-                regs[dst].clone_from(&s);
-                if dst != src {
-                    // also straight from the other register
+                // ONE clone_from per step (a second one onto the already overwritten destination would repair
+                // what the first got wrong): from a temporary copy, or straight from the other register
+                if dst == src || rng.coin() {
+                    let s = regs[src].clone();
+                    regs[dst].clone_from(&s);
+                } else {
                     let (a, b) = if dst < src { let (l, r) = regs.split_at_mut(src); (&mut l[dst], &r[0]) } else { let (l, r) = regs.split_at_mut(dst); (&mut r[0], &l[src]) };
                     a.clone_from(b);
                 }
